@@ -52,7 +52,14 @@ func (h *hist) closeTree() {
 
 func (h *hist) openTree(creator int) error {
 	ctx := context.Background()
-	dir, err := os.MkdirTemp("", "verif-keys-*")
+	base := ""
+	if st, serr := os.Stat("/dev/shm"); serr == nil && st.IsDir() {
+		base = "/dev/shm" // memory backed: the SQLite fsyncs of any-store dominate the wall time otherwise
+	}
+	dir, err := os.MkdirTemp(base, "verif-keys-*")
+	if err != nil && base != "" {
+		dir, err = os.MkdirTemp("", "verif-keys-*")
+	}
 	if err != nil {
 		return err
 	}
